@@ -61,6 +61,8 @@ PROP = {
     "assumptions": [
         "C11_backoff holds for every positive int64 initial delay / T5 and every multiplier since /repo commit 67dfa20 (the function before that commit is kept as Backoff_next_delay_old with its 2^53 refutation)",
         "the sleep sequence theorem is for a configuration that does not change while the loop runs (the loop re-reads T5 and the multiplier every iteration)",
+        "PROVED (C11_recovery_possible, Hsms/LifecycleRecovery.v): recoverability, the AG EF form of liveness - from every reachable state with Open called and Close not, a trace of cooperative actions only (library-internal steps + dial/listen succeeds, peer connects, Select answered 0; no API call, no fault) of length <= 22 + queued disconnects + linktest/T7 goroutines to join reaches a live Selected session: no reachable state of the model is wedged. It rests on the model facts that a receive goroutine ends silently only after teardown began and that the event channel is FIFO between a TCP-up echo and disconnects - the e2e cut/stall matrix (HSMS byte offsets, SECS-I E4 positions) is their correspondence",
+        "NOT proved: liveness proper - that under a fair Go scheduler and an eventually reachable peer the REAL connection recovers in real time (the sleeps between attempts are finite, bounded by T5: C11_backoff)",
         "liveness ('eventually re-establishes a Selected, fully working session') is OBSERVED in every e2e run (post-recovery round trip within 8 s), not proved: the theorems give the safety half (C11_loop_exists: an open NotConnected connection is always covered by a loop / Start / reaction / live listener)",
         "lifecycle theorems: same model and assumptions as C10 (atomic steps per DESIGN.md A.3, joins complete, hsmsss transport contract, environment over-approximated)",
         "the lifecycle LTS abstracts 'the transport reports the loss of the link on ANY I/O error of a live generation' as one environment action (LcRecvExit true / LcSpuriousDown -> evDisconnect); its correspondence is the e2e cut matrix: HSMS-SS cut/stalled at every byte offset, and SECS-I killed at every position of the E4 line protocol (library-initiated O1..O6, peer-initiated P1..P5; peer closes / library's end closed underneath; active/passive x equipment/host) - each loss must lead to NotConnected, a re-dial / re-accept, Reconnects()+1 and a working round trip",
